@@ -5,10 +5,30 @@
     chain pipeline mirroring type_registry.rs) computes exactly [lookup_spec], for every registry, every
     module path that is not itself an item path, every use list and every name; the result is always an
     entry of the registry; the emitted reference is [crate::] + that path (bare for root-level
-    built-ins), and the size/alignment used for layout are read from exactly that entry. *)
+    built-ins), and the size/alignment used for layout are read from exactly that entry.
+
+    FOR THE WHOLE BUILD (BindingWhole.v, BindingEmit.v), collision-free clean input, any schedule:
+    - [C11_binding_stable_whole_build] / [C11_attempt_binding_is_final]: a clean name resolves, in
+      every registry the build passes through and in the final one, to what it resolves to in the
+      INPUT registry -- [lookup_spec] over the input's definitions alone; what a name was bound to
+      when its user was attempted is what the rules select at the end
+      ([C11_ext_alone_does_not_fix_a_binding]: the weaker [ext] relation would not suffice);
+    - [C11_field_whole_build] / [C11_field_of_named_type]: every declared field's region carries the
+      type obtained by binding its names with the rules, and the size and alignment the layout uses
+      are those of exactly the selected entry in the final registry;
+    - [C11_impl_functions_whole_build], [C11_vftable_functions_whole_build],
+      [C11_enum_base_whole_build], [C11_extern_values_whole_build]: the same for parameters, return
+      types, enum base types and extern values;
+    - [C11_emitted_field], [C11_emitted_impl_functions], [C11_emitted_extern_values]: the emitted
+      struct field / wrapper / accessor carries [type_tokens] of that type, i.e. [crate::<path of
+      the selected definition>].
+    The [lookup_spec] forms carry the premise that the module's path is not itself an item path;
+    names ending in "Vftable" are outside ([clean]: pyxis is order dependent there, F4b/F7b). *)
 From Coq Require Import List NArith Bool String.
 From PyxisModel Require Import Base Sexp Grammar SemTypes Registry Sem Emit ScopeLemmas.
 Import ListNotations.
+
+From PyxisModel Require BindingWhole BindingEmit.
 
 Theorem C11_main : forall R modpath uses name,
   reg_has R modpath = false ->
@@ -55,3 +75,373 @@ Example C11_example :
   lookup_spec has_ex ["m"] [] "u32" = Some ["u32"] /\
   lookup_spec has_ex ["z"] [["c"]] "T" = None.
 Proof. vm_compute. repeat split. Qed.
+
+Theorem C11_binding_stable_whole_build :
+  forall (order : schedule) (ptr : N) (mods : list (path * gmodule)) (st0 st : sstate) 
+      (k : path) (m : smodule) (n : string),
+    WholeBuild.input_state ptr mods = Ok st0 ->
+    WholeBuild.collision_free (st_reg st0) ->
+    OrderIndep.clean_stateb st0 = true ->
+    pyxis_resolve order ptr mods = BOk st ->
+    alookup k (st_modules st0) = Some m ->
+    Monotone.ends_vft n = false ->
+    let R0 := st_reg st0 in
+    forall R_mid : registry,
+    Monotone.reach R0 R_mid ->
+    resolve_string R_mid (module_scope m) n = resolve_string R0 (module_scope m) n /\
+    resolve_string (st_reg st) (module_scope m) n = resolve_string R0 (module_scope m) n /\
+    (reg_has R0 (m_path m) = false ->
+     resolve_string R_mid (module_scope m) n =
+     option_map TRaw (lookup_spec (reg_has R0) (m_path m) (gm_uses (m_ast m)) n) /\
+     resolve_string (st_reg st) (module_scope m) n =
+     option_map TRaw (lookup_spec (reg_has R0) (m_path m) (gm_uses (m_ast m)) n) /\
+     lookup_spec (reg_has (st_reg st)) (m_path m) (gm_uses (m_ast m)) n =
+     lookup_spec (reg_has R0) (m_path m) (gm_uses (m_ast m)) n).
+Proof. exact BindingWhole.C11_binding_stable_whole_build. Qed.
+Print Assumptions C11_binding_stable_whole_build.
+
+Theorem C11_attempt_binding_is_final :
+  forall (order : schedule) (ptr : N) (mods : list (path * gmodule)) (st0 st : sstate) 
+      (p : path) (it0 : item) (gd : gitemdef) (it : item) (r : resolved),
+    WholeBuild.input_state ptr mods = Ok st0 ->
+    WholeBuild.collision_free (st_reg st0) ->
+    OrderIndep.clean_stateb st0 = true ->
+    pyxis_resolve order ptr mods = BOk st ->
+    reg_get (st_reg st0) p = Some it0 ->
+    it_state it0 = Unresolved gd ->
+    reg_get (st_reg st) p = Some it ->
+    it_state it = Resolved r ->
+    let R0 := st_reg st0 in
+    exists st_mid st_mid' : sstate,
+      attempt st_mid p gd = (st_mid', Ok r) /\
+      WholeBuild.ext R0 R0 (st_reg st_mid) /\
+      WholeBuild.ext R0 (st_reg st_mid) (st_reg st_mid') /\
+      WholeBuild.ext R0 (st_reg st_mid') (st_reg st) /\
+      (forall (k : path) (m : smodule) (n : string) (t : stype),
+       alookup k (st_modules st0) = Some m ->
+       Monotone.ends_vft n = false ->
+       resolve_string (st_reg st_mid) (module_scope m) n = Some t \/
+       resolve_string (st_reg st_mid') (module_scope m) n = Some t ->
+       resolve_string (st_reg st) (module_scope m) n = Some t /\
+       resolve_string R0 (module_scope m) n = Some t).
+Proof. exact BindingWhole.C11_attempt_binding_is_final. Qed.
+Print Assumptions C11_attempt_binding_is_final.
+
+Theorem C11_field_whole_build :
+  forall (order : schedule) (ptr : N) (mods : list (path * gmodule)) (st0 st : sstate) 
+      (p : path) (it0 : item) (gd : gitemdef) (td0 : gtypedef) (it : item) (r : resolved)
+      (parent : path) (m0 : smodule) (s : gstatement) (v : vis) (name : string) 
+      (t : gtype),
+    WholeBuild.input_state ptr mods = Ok st0 ->
+    WholeBuild.collision_free (st_reg st0) ->
+    OrderIndep.clean_stateb st0 = true ->
+    pyxis_resolve order ptr mods = BOk st ->
+    reg_get (st_reg st0) p = Some it0 ->
+    it_state it0 = Unresolved gd ->
+    gi_inner gd = GIType td0 ->
+    reg_get (st_reg st) p = Some it ->
+    it_state it = Resolved r ->
+    path_parent p = Some parent ->
+    alookup parent (st_modules st0) = Some m0 ->
+    In s (gt_stmts td0) ->
+    gs_field s = GField v name t ->
+    let R0 := st_reg st0 in
+    let R := st_reg st in
+    let scope := module_scope m0 in
+    exists (td : type_def) (ty : stype) (sz al : N),
+      rs_inner r = IType td /\
+      resolve_gtype R0 scope t = Some ty /\
+      resolve_gtype R scope t = Some ty /\
+      (reg_has R0 (m_path m0) = false ->
+       BindingWhole.bind_gtype (lookup_spec (reg_has R0) (m_path m0) (gm_uses (m_ast m0))) t = Some ty) /\
+      size_of R ty = Some sz /\
+      align_of R ty = Some al /\
+      (name <> "_"%string ->
+       (sz =? 0)%N && stype_is_array ty = false ->
+       exists (off : N) (rg : region),
+         In (off, rg)
+           (combine
+              (PlacementLemmas.field_offsets (td_packed td) (rs_align r)
+                 (map (SemLemmas.region_sa R) (td_regions td))) (td_regions td)) /\
+         r_name rg = Some name /\ r_type rg = ty /\ r_vis rg = v /\ SemLemmas.region_sa R rg = (sz, al)).
+Proof. exact BindingWhole.C11_field_whole_build. Qed.
+Print Assumptions C11_field_whole_build.
+
+Theorem C11_field_of_named_type :
+  forall (order : schedule) (ptr : N) (mods : list (path * gmodule)) (st0 st : sstate) 
+      (p : path) (it0 : item) (gd : gitemdef) (td0 : gtypedef) (it : item) (r : resolved)
+      (parent : path) (m0 : smodule) (s : gstatement) (v : vis) (name tn : string),
+    WholeBuild.input_state ptr mods = Ok st0 ->
+    WholeBuild.collision_free (st_reg st0) ->
+    OrderIndep.clean_stateb st0 = true ->
+    pyxis_resolve order ptr mods = BOk st ->
+    reg_get (st_reg st0) p = Some it0 ->
+    it_state it0 = Unresolved gd ->
+    gi_inner gd = GIType td0 ->
+    reg_get (st_reg st) p = Some it ->
+    it_state it = Resolved r ->
+    path_parent p = Some parent ->
+    alookup parent (st_modules st0) = Some m0 ->
+    In s (gt_stmts td0) ->
+    gs_field s = GField v name (GIdent tn) ->
+    reg_has (st_reg st0) (m_path m0) = false ->
+    let R0 := st_reg st0 in
+    let R := st_reg st in
+    exists (td : type_def) (q : path) (itq : item) (rsq : resolved),
+      rs_inner r = IType td /\
+      lookup_spec (reg_has R0) (m_path m0) (gm_uses (m_ast m0)) tn = Some q /\
+      lookup_spec (reg_has R) (m_path m0) (gm_uses (m_ast m0)) tn = Some q /\
+      reg_get R0 q <> None /\
+      resolve_string R (module_scope m0) tn = Some (TRaw q) /\
+      reg_get R q = Some itq /\
+      item_resolved itq = Some rsq /\
+      size_of R (TRaw q) = Some (rs_size rsq) /\
+      align_of R (TRaw q) = Some (rs_align rsq) /\
+      (name <> "_"%string ->
+       exists (off : N) (rg : region),
+         In (off, rg)
+           (combine
+              (PlacementLemmas.field_offsets (td_packed td) (rs_align r)
+                 (map (SemLemmas.region_sa R) (td_regions td))) (td_regions td)) /\
+         r_name rg = Some name /\
+         r_type rg = TRaw q /\ r_vis rg = v /\ SemLemmas.region_sa R rg = (rs_size rsq, rs_align rsq)).
+Proof. exact BindingWhole.C11_field_of_named_type. Qed.
+Print Assumptions C11_field_of_named_type.
+
+Theorem C11_impl_functions_whole_build :
+  forall (order : schedule) (ptr : N) (mods : list (path * gmodule)) (st0 st : sstate) 
+      (p : path) (it0 : item) (gd : gitemdef) (td0 : gtypedef) (it : item) (r : resolved)
+      (parent : path) (m0 : smodule) (blk : gfnblock),
+    WholeBuild.input_state ptr mods = Ok st0 ->
+    WholeBuild.collision_free (st_reg st0) ->
+    OrderIndep.clean_stateb st0 = true ->
+    pyxis_resolve order ptr mods = BOk st ->
+    reg_get (st_reg st0) p = Some it0 ->
+    it_state it0 = Unresolved gd ->
+    gi_inner gd = GIType td0 ->
+    reg_get (st_reg st) p = Some it ->
+    it_state it = Resolved r ->
+    path_parent p = Some parent ->
+    alookup parent (st_modules st0) = Some m0 ->
+    alookup p (m_impls m0) = Some blk ->
+    exists (td : type_def) (inherited own : list sfunction),
+      rs_inner r = IType td /\
+      td_assoc td = (inherited ++ own)%list /\
+      Forall2 (BindingWhole.fn_built_bound (st_reg st0) (st_reg st) m0 false) (gb_fns blk) own.
+Proof. exact BindingWhole.C11_impl_functions_whole_build. Qed.
+Print Assumptions C11_impl_functions_whole_build.
+
+Theorem C11_vftable_functions_whole_build :
+  forall (order : schedule) (ptr : N) (mods : list (path * gmodule)) (st0 st : sstate) 
+      (p : path) (it0 : item) (gd : gitemdef) (td0 : gtypedef) (it : item) (r : resolved)
+      (parent : path) (m0 : smodule) (s : gstatement) (rest : list gstatement) 
+      (gfs : list gfunction),
+    WholeBuild.input_state ptr mods = Ok st0 ->
+    WholeBuild.collision_free (st_reg st0) ->
+    OrderIndep.clean_stateb st0 = true ->
+    pyxis_resolve order ptr mods = BOk st ->
+    reg_get (st_reg st0) p = Some it0 ->
+    it_state it0 = Unresolved gd ->
+    gi_inner gd = GIType td0 ->
+    reg_get (st_reg st) p = Some it ->
+    it_state it = Resolved r ->
+    path_parent p = Some parent ->
+    alookup parent (st_modules st0) = Some m0 ->
+    gt_stmts td0 = s :: rest ->
+    gs_field s = GVftable gfs ->
+    exists (sz : option N) (fs : list sfunction) (td : type_def) (vt : tvftable),
+      foldM scan_vftable_size_attr (gs_attrs s) None = Ok sz /\
+      convert_functions (st_reg st0) (module_scope m0) sz gfs = Ok fs /\
+      convert_functions (st_reg st) (module_scope m0) sz gfs = Ok fs /\
+      rs_inner r = IType td /\
+      td_vftable td = Some vt /\
+      vt_functions vt = fs /\
+      Forall
+        (fun f : gfunction =>
+         exists sf : sfunction,
+           In sf fs /\ BindingWhole.fn_built_bound (st_reg st0) (st_reg st) m0 true f sf) gfs.
+Proof. exact BindingWhole.C11_vftable_functions_whole_build. Qed.
+Print Assumptions C11_vftable_functions_whole_build.
+
+Theorem C11_enum_base_whole_build :
+  forall (order : schedule) (ptr : N) (mods : list (path * gmodule)) (st0 st : sstate) 
+      (p : path) (it0 : item) (gd : gitemdef) (ed0 : genumdef) (it : item) (r : resolved)
+      (parent : path) (m0 : smodule),
+    WholeBuild.input_state ptr mods = Ok st0 ->
+    WholeBuild.collision_free (st_reg st0) ->
+    OrderIndep.clean_stateb st0 = true ->
+    pyxis_resolve order ptr mods = BOk st ->
+    reg_get (st_reg st0) p = Some it0 ->
+    it_state it0 = Unresolved gd ->
+    gi_inner gd = GIEnum ed0 ->
+    reg_get (st_reg st) p = Some it ->
+    it_state it = Resolved r ->
+    path_parent p = Some parent ->
+    alookup parent (st_modules st0) = Some m0 ->
+    let R0 := st_reg st0 in
+    let R := st_reg st in
+    exists ed : enum_def,
+      rs_inner r = IEnum ed /\
+      resolve_gtype R0 (module_scope m0) (ged_type ed0) = Some (ed_type ed) /\
+      resolve_gtype R (module_scope m0) (ged_type ed0) = Some (ed_type ed) /\
+      (reg_has R0 (m_path m0) = false ->
+       BindingWhole.bind_gtype (lookup_spec (reg_has R0) (m_path m0) (gm_uses (m_ast m0)))
+         (ged_type ed0) = Some (ed_type ed)) /\
+      size_of R (ed_type ed) = Some (rs_size r) /\ align_of R (ed_type ed) = Some (rs_align r).
+Proof. exact BindingWhole.C11_enum_base_whole_build. Qed.
+Print Assumptions C11_enum_base_whole_build.
+
+Theorem C11_extern_values_whole_build :
+  forall (order : schedule) (ptr : N) (mods : list (path * gmodule)) (st0 st : sstate) 
+      (k : path) (m' : smodule),
+    WholeBuild.input_state ptr mods = Ok st0 ->
+    WholeBuild.collision_free (st_reg st0) ->
+    OrderIndep.clean_stateb st0 = true ->
+    pyxis_resolve order ptr mods = BOk st ->
+    In (k, m') (st_modules st) ->
+    let R0 := st_reg st0 in
+    let R := st_reg st in
+    exists m0 : smodule,
+      In (k, m0) (st_modules st0) /\
+      m_path m' = m_path m0 /\
+      m_ast m' = m_ast m0 /\
+      Forall2
+        (fun ev ev' : sextern =>
+         exists ty : stype,
+           resolve_gtype R0 (module_scope m0) (ev_gtype ev) = Some ty /\
+           resolve_gtype R (module_scope m0) (ev_gtype ev) = Some ty /\
+           (reg_has R0 (m_path m0) = false ->
+            BindingWhole.bind_gtype (lookup_spec (reg_has R0) (m_path m0) (gm_uses (m_ast m0)))
+              (ev_gtype ev) = Some ty) /\
+           ev_type ev' = Some ty /\
+           ev_address ev' = ev_address ev /\ ev_name ev' = ev_name ev /\ ev_vis ev' = ev_vis ev)
+        (m_extern_values m0) (m_extern_values m').
+Proof. exact BindingWhole.C11_extern_values_whole_build. Qed.
+Print Assumptions C11_extern_values_whole_build.
+
+Theorem C11_emitted_field :
+  forall (order : schedule) (ptr : N) (mods : list (path * gmodule)) (st0 st : sstate)
+      (files : list (string * sexp)) (p : path) (it0 : item) (gd : gitemdef) 
+      (td0 : gtypedef) (parent : path) (m0 : smodule) (s0 : gstatement) (v : vis) 
+      (name : string) (t : gtype),
+    WholeBuild.input_state ptr mods = Ok st0 ->
+    NoDup (map fst mods) ->
+    WholeBuild.collision_free (st_reg st0) ->
+    OrderIndep.clean_stateb st0 = true ->
+    EmitFinal.keeps_work order ->
+    pyxis_resolve order ptr mods = BOk st ->
+    write_all st = Ok files ->
+    reg_get (st_reg st0) p = Some it0 ->
+    it_state it0 = Unresolved gd ->
+    gi_inner gd = GIType td0 ->
+    path_parent p = Some parent ->
+    parent <> [] ->
+    alookup parent (st_modules st0) = Some m0 ->
+    In s0 (gt_stmts td0) ->
+    gs_field s0 = GField v name t ->
+    name <> "_"%string ->
+    let R0 := st_reg st0 in
+    let R := st_reg st in
+    exists
+      (sname : string) (f : sexp) (items : list sexp) (s : sexp) (efs : list EmitReaders.efield) 
+    (ty : stype) (sz al : N),
+      path_last p = Some sname /\
+      In (out_path parent, f) files /\
+      EmitReaders.file_items f = Some items /\
+      EmitReaders.find_struct sname items = Some s /\
+      EmitReaders.struct_fields s = Some efs /\
+      resolve_gtype R0 (module_scope m0) t = Some ty /\
+      resolve_gtype R (module_scope m0) t = Some ty /\
+      (reg_has R0 (m_path m0) = false ->
+       BindingWhole.bind_gtype (lookup_spec (reg_has R0) (m_path m0) (gm_uses (m_ast m0))) t = Some ty) /\
+      size_of R ty = Some sz /\
+      align_of R ty = Some al /\
+      ((sz =? 0)%N && stype_is_array ty = false ->
+       exists ef : EmitReaders.efield,
+         In ef efs /\
+         EmitReaders.ef_name ef = name /\
+         EmitReaders.ef_ty ef = type_tokens ty /\ EmitReaders.ef_vis ef = v).
+Proof. exact BindingEmit.C11_emitted_field. Qed.
+Print Assumptions C11_emitted_field.
+
+Theorem C11_emitted_impl_functions :
+  forall (order : schedule) (ptr : N) (mods : list (path * gmodule)) (st0 st : sstate)
+      (files : list (string * sexp)) (p : path) (it0 : item) (gd : gitemdef) 
+      (td0 : gtypedef) (parent : path) (m0 : smodule) (blk : gfnblock),
+    WholeBuild.input_state ptr mods = Ok st0 ->
+    NoDup (map fst mods) ->
+    WholeBuild.collision_free (st_reg st0) ->
+    OrderIndep.clean_stateb st0 = true ->
+    EmitFinal.keeps_work order ->
+    pyxis_resolve order ptr mods = BOk st ->
+    write_all st = Ok files ->
+    reg_get (st_reg st0) p = Some it0 ->
+    it_state it0 = Unresolved gd ->
+    gi_inner gd = GIType td0 ->
+    path_parent p = Some parent ->
+    parent <> [] ->
+    alookup parent (st_modules st0) = Some m0 ->
+    alookup p (m_impls m0) = Some blk ->
+    exists
+      (name : string) (it : item) (r : resolved) (td : type_def) (inherited own : list sfunction) 
+    (f : sexp) (items : list sexp) (im : sexp) (fns : list sexp),
+      path_last p = Some name /\
+      reg_get (st_reg st) p = Some it /\
+      it_state it = Resolved r /\
+      rs_inner r = IType td /\
+      td_assoc td = (inherited ++ own)%list /\
+      In (out_path parent, f) files /\
+      EmitReaders.file_items f = Some items /\
+      In im items /\
+      EmitReaders.item_kind im = Some "impl"%string /\
+      EmitFnReaders.inherent_impl im = Some (name, fns) /\
+      Forall2
+        (fun (gf : gfunction) (sf : sfunction) =>
+         BindingWhole.fn_built_bound (st_reg st0) (st_reg st) m0 false gf sf /\
+         (sf_is_internal sf = false -> exists e : sexp, In e fns /\ EmitFnShape.wrapper_shape sf e))
+        (gb_fns blk) own.
+Proof. exact BindingEmit.C11_emitted_impl_functions. Qed.
+Print Assumptions C11_emitted_impl_functions.
+
+Theorem C11_emitted_extern_values :
+  forall (order : schedule) (ptr : N) (mods : list (path * gmodule)) (st0 st : sstate)
+      (files : list (string * sexp)) (k : path) (m' : smodule),
+    WholeBuild.input_state ptr mods = Ok st0 ->
+    WholeBuild.collision_free (st_reg st0) ->
+    OrderIndep.clean_stateb st0 = true ->
+    pyxis_resolve order ptr mods = BOk st ->
+    write_all st = Ok files ->
+    In (k, m') (st_modules st) ->
+    k <> [] ->
+    let R0 := st_reg st0 in
+    let R := st_reg st in
+    exists (m0 : smodule) (f : sexp) (items : list sexp),
+      In (k, m0) (st_modules st0) /\
+      m_path m' = m_path m0 /\
+      m_ast m' = m_ast m0 /\
+      In (out_path k, f) files /\
+      EmitReaders.file_items f = Some items /\
+      Forall2
+        (fun ev ev' : sextern =>
+         exists (ty : stype) (e : sexp),
+           resolve_gtype R0 (module_scope m0) (ev_gtype ev) = Some ty /\
+           resolve_gtype R (module_scope m0) (ev_gtype ev) = Some ty /\
+           (reg_has R0 (m_path m0) = false ->
+            BindingWhole.bind_gtype (lookup_spec (reg_has R0) (m_path m0) (gm_uses (m_ast m0)))
+              (ev_gtype ev) = Some ty) /\
+           ev_type ev' = Some ty /\
+           ev_address ev' = ev_address ev /\
+           ev_name ev' = ev_name ev /\ In e items /\ EmitFnShape.extern_shape ev' ty e)
+        (m_extern_values m0) (m_extern_values m').
+Proof. exact BindingEmit.C11_emitted_extern_values. Qed.
+Print Assumptions C11_emitted_extern_values.
+
+Theorem C11_ext_alone_does_not_fix_a_binding :
+  WholeBuild.ext BindingWhole.cx_R0 BindingWhole.cx_R0 BindingWhole.cx_Rmid /\
+    WholeBuild.ext BindingWhole.cx_R0 BindingWhole.cx_Rmid BindingWhole.cx_R0 /\
+    Monotone.clean_path ["T"%string] = true /\
+    Monotone.ends_vft "T" = false /\
+    resolve_string BindingWhole.cx_Rmid [["m"%string]] "T" = Some (TRaw ["T"%string]) /\
+    resolve_string BindingWhole.cx_R0 [["m"%string]] "T" = None.
+Proof. exact BindingWhole.ext_alone_does_not_fix_a_binding. Qed.
+Print Assumptions C11_ext_alone_does_not_fix_a_binding.
